@@ -208,7 +208,42 @@ func (g *gen) mutate(root *ex.SelSet) string {
 	for try := 0; try < 20; try++ {
 		st := ss[g.r.Intn(len(ss))]
 		td := g.s.Types[st.t]
-		switch g.r.Intn(5) {
+		switch g.r.Intn(6) {
+		case 5: // a fragment on some other type under an object parent (thunder applies it to the parent)
+			if td.Kind == "OBJECT" && st.t != g.s.Query {
+				var others []string
+				for n, d := range g.s.Types {
+					if d.Kind == "OBJECT" && n != st.t && n != "Mutation" {
+						others = append(others, n)
+					}
+				}
+				sort.Strings(others)
+				other := others[g.r.Intn(len(others))]
+				var body *ex.SelSet
+				switch g.r.Intn(4) {
+				case 0: // a selection that is valid for the foreign type
+					body = g.set(other, 0)
+				case 1: // an unknown field
+					body = &ex.SelSet{Sels: []*ex.Sel{{Alias: "nope", Name: "nope", Dirs: []ex.Dir{}, Sub: ex.EmptySet()}}, Frags: []*ex.Frag{}}
+				case 2: // a selection that is valid for the parent
+					body = g.set(st.t, 0)
+				default: // an object field of the parent without sub-selection / a scalar with one
+					body = g.set(st.t, 1)
+					for _, s := range body.Sels {
+						if s.Name != "__typename" {
+							s.HasSub = !s.HasSub
+							if s.HasSub {
+								s.Sub = &ex.SelSet{Sels: []*ex.Sel{tn()}, Frags: []*ex.Frag{}}
+							} else {
+								s.Sub = ex.EmptySet()
+							}
+							break
+						}
+					}
+				}
+				st.ss.Frags = append(st.ss.Frags, &ex.Frag{On: other, Dirs: []ex.Dir{}, Sub: body})
+				return "foreign_fragment"
+			}
 		case 0: // unknown field
 			if td.Kind == "OBJECT" {
 				st.ss.Sels = append(st.ss.Sels, &ex.Sel{Alias: "nope", Name: "nope", Dirs: []ex.Dir{}, Sub: ex.EmptySet()})
@@ -284,7 +319,7 @@ func runOne(schema *graphql.Schema, text string) (r Rec) {
 		return
 	}
 	r.Prepared = true
-	val, err := graphql.NewExecutor(graphql.NewImmediateGoroutineScheduler()).Execute(context.Background(), schema.Query, nil, q)
+	val, err := graphql.NewExecutor(ex.NewSeqScheduler("fifo")).Execute(context.Background(), schema.Query, nil, q)
 	if err != nil {
 		r.Outcome, r.Err = "error", err.Error()
 		return
